@@ -90,6 +90,8 @@ EXC_KINDS = {
     "RecursionError": RecursionError,
     "StopIteration": StopIteration,
     "AssertionError": AssertionError,
+    "CancelledError": __import__("asyncio").CancelledError,
+    "ViolationErrorLookalike": type("ViolationError", (AssertionError,), {}),
 }
 
 
@@ -174,7 +176,9 @@ class Hub:
         hook = self.hooks.get(id_)
         if hook is not None:
             hook(id_, got)
-        val = Tok("old:" + id_)
+        val = Tok("old:" + id_)  # type: Any
+        if self.truth.get("snap:" + id_) == "alias" and got:
+            val = next(iter(got.values()))
         self.captured[id_] = val
         return val
 
